@@ -29,13 +29,15 @@ C13_CLAUSES = {"ClosedHandleRefused", "ClosedOnlyOnClosedHandle", "BrokenOnlyWhe
 ENV = '{"cancel", "native", "esend", "erecv"}'
 
 
-def consts(nt, maxops, maxenv, ops, maxbuf, ns=1, nr=1, env=ENV):
+def consts(nt, maxops, maxenv, ops, maxbuf, ns=1, nr=1, env=ENV, wrap=False, retry=False):
     return {"NT": str(nt), "INF": "99", "Ops": ops, "MaxOps": str(maxops), "MaxEnv": str(maxenv),
-            "EnvKinds": env, "MaxBuf": str(maxbuf), "NS0": str(ns), "NR0": str(nr)}
+            "EnvKinds": env, "MaxBuf": str(maxbuf), "NS0": str(ns), "NR0": str(nr),
+            "Wrap": "TRUE" if wrap else "FALSE", "Retry": "TRUE" if retry else "FALSE"}
 
 
-def kw(maxbuf, ns=1, nr=1):
-    return {"maxbuf": maxbuf, "ns": ns, "nr": nr}
+def kw(maxbuf, ns=1, nr=1, wrap=False, retry=False):
+    return {"maxbuf": maxbuf, "ns": ns, "nr": nr, **({"wrap": True} if wrap else {}),
+            **({"retry": True} if retry else {})}
 
 
 def cmp(model: dict, real: dict) -> list[str]:
@@ -55,6 +57,17 @@ CONFIGS = [
              check=False, replay_kw=kw(1), max_scenarios=4000),
     ModelCfg("m-n2o1e3-ss", consts(2, 1, 3, '{"send1"}', 0, env='{"cancel", "erecv"}'), emit=True,
              check=False, replay_kw=kw(0)),
+    # operations inside a shielded scope nested in the scope the environment cancels: the cancellation
+    # must stay invisible to has_pending_cancellation (receivers keep being served, in order)
+    ModelCfg("m-n2o1e3-wrap", consts(2, 1, 3, '{"recv1"}', 1, env='{"cancel", "esend"}', wrap=True), emit=True,
+             replay_kw=kw(1, wrap=True)),
+    ModelCfg("m-n2o2e2-wrap", consts(2, 2, 2, OPS_DATA, 0, env='{"cancel", "native", "esend", "erecv"}', wrap=True),
+             emit=True, check=False, replay_kw=kw(0, wrap=True), max_scenarios=4000),
+    # clients survive the cancellation of their scope (move_on_after pattern) and send / receive again
+    ModelCfg("m-n2o3e2-retry", consts(2, 3, 2, '{"send1", "recv1"}', 0, env='{"cancel", "esend"}', retry=True),
+             emit=True, check=False, replay_kw=kw(0, retry=True), max_scenarios=3000),
+    ModelCfg("m-n3o3e2-retry", consts(3, 3, 2, OPS_DATA, 1, retry=True), simulate=1000, check=False,
+             replay_kw=kw(1, retry=True)),
     ModelCfg("m-n2o2e1-b0", consts(2, 2, 1, OPS1, 0), emit=True, check=False, replay_kw=kw(0),
              max_scenarios=5000),
     ModelCfg("m-n2o2e1-b1", consts(2, 2, 1, OPS1, 1), emit=True, check=False, replay_kw=kw(1),
